@@ -152,6 +152,7 @@ def run(ctx):
             ctx.fail(f'method={method} is not honoured: width {w}, treewidth {tw}', case, int(w), int(tw), tags=['factorize', 'method', method])
     run_shared_labels(ctx)
     run_grammars(ctx)
+    run_grammar_label_clash(ctx)
 
 
 def run_shared_labels(ctx):
@@ -193,6 +194,74 @@ def run_shared_labels(ctx):
         if missing:
             ctx.fail('factorize_rule did not add the labels in use / the new labels to the caller\'s label set', case, sorted(missing), None,
                      tags=['factorize', 'labels-not-extended', method])
+
+
+def run_grammar_label_clash(ctx):
+    """factorize_hrg / factorize_fgg know the WHOLE input grammar: a fresh nonterminal must avoid every label of it, also one that only
+    occurs in rules that come LATER in all_rules() order.  Grammars  S -> chain of binary factors + Y,  Y -> S_i,  S_i -> unary factor,
+    whose user nonterminals S_1, S_2, ... have exactly the names (and, in half the cases, the types) of the fresh nonterminals the rule
+    of S would get: every input nonterminal keeps its number of rules, the others are fresh with one rule each, sum_product unchanged"""
+    A = NodeLabel('A')
+    n = 12 if ctx.quick else 120
+    for k in range(n):
+        rng = ctx.rng
+        method = rng.choice(METHODS)
+        m = rng.randint(3, 5)                      # nodes of the chain in the rule of S
+        dom = rng.choice([2, 3])
+        clash = sorted(rng.sample(range(1, 5), rng.randint(1, 3)))
+        ar = rng.choice([0, 1, 1])                 # type of the clashing user nonterminals: () or (A,)
+        g = FGG(EdgeLabel('S', [], is_nonterminal=True))
+        g.add_domain(A, FiniteDomain(list(range(dom))))
+        t2 = EdgeLabel('t', [A, A], is_terminal=True); t1 = EdgeLabel('u', [A], is_terminal=True)
+        w2 = torch.tensor([[float(rng.choice([1, 2, 3])) for _ in range(dom)] for _ in range(dom)], dtype=torch.float64)
+        w1 = torch.tensor([float(rng.choice([1, 2, 5])) for _ in range(dom)], dtype=torch.float64)
+        g.add_factor(t2, FiniteFactor([g.domains['A']] * 2, w2)); g.add_factor(t1, FiniteFactor([g.domains['A']], w1))
+        Y = EdgeLabel('Y', [A] * ar, is_nonterminal=True)
+        users = [EdgeLabel(f'S_{i}', [A] * ar, is_nonterminal=True) for i in clash]
+        # S -> t(v0,v1) t(v1,v2) ... Y(v_{m-1})
+        rhs = Graph(); vs = [Node(A, f'v{i}') for i in range(m)]
+        for v in vs: rhs.add_node(v)
+        for i in range(m - 1): rhs.add_edge(Edge(t2, [vs[i], vs[i + 1]], id=f'e{i}'))
+        rhs.add_edge(Edge(Y, [vs[-1]] * ar, id='eY'))
+        g.add_rule(HRGRule(g.start, rhs))
+        # Y -> S_i1 S_i2 ...   (the first appearance of the clashing labels: after the rule of S)
+        rhs = Graph(); v = Node(A, 'y'); rhs.add_node(v); rhs.ext = [v] * ar
+        for j, ul in enumerate(users): rhs.add_edge(Edge(ul, [v] * ar, id=f'y{j}'))
+        if ar == 0: rhs.add_edge(Edge(t1, [v], id='yu'))
+        g.add_rule(HRGRule(Y, rhs))
+        for ul in users:
+            rhs = Graph(); v = Node(A, 'z'); rhs.add_node(v); rhs.ext = [v] * ar
+            rhs.add_edge(Edge(t1, [v], id='zu'))
+            g.add_rule(HRGRule(ul, rhs))
+        case = dict(chain=m, dom=dom, clash=[u.name for u in users], arity=ar, method=method, w2=w2.tolist(), w1=w1.tolist())
+        ctx.case(case, ('clash', k, method, m, tuple(clash), ar))
+        ctx.count(f'grammar-label-clash.{method}')
+        before = {nt.name: len(g.rules(nt)) for nt in g.nonterminals()}
+        z1 = fggs.sum_product(g, semiring=fggs.RealSemiring(dtype=torch.float64)).to_dense()
+        for fn in (factorize_hrg, factorize_fgg):
+            try:
+                out = fn(g, method=method)
+            except Exception as e:  # noqa
+                ctx.fail(f'{fn.__name__} raised {type(e).__name__} on a grammar whose later rules use labels named like fresh nonterminals', case,
+                         repr(e), None, tags=['factorize-grammar', 'label-clash', 'raises', method])
+                continue
+            after = {nt.name: len(out.rules(nt)) for nt in out.nonterminals()}
+            for nm, c in before.items():
+                if after.get(nm) != c:
+                    ctx.fail(f'{fn.__name__}: the input nonterminal {nm} had {c} rule(s) and has {after.get(nm)} after factorization (a fresh '
+                             'nonterminal took the name of a label of the input grammar)', case, after, before, tags=['factorize-grammar', 'label-clash', 'names', method])
+            for nm, c in after.items():
+                if nm not in before and c != 1:
+                    ctx.fail(f'{fn.__name__}: the fresh nonterminal {nm} has {c} rules', case, after, before, tags=['factorize-grammar', 'label-clash', 'fresh-rules', method])
+            if fn is factorize_fgg:
+                try:
+                    z2 = fggs.sum_product(out, semiring=fggs.RealSemiring(dtype=torch.float64)).to_dense()
+                except Exception as e:  # noqa
+                    ctx.fail(f'sum_product of the factorized grammar raised {type(e).__name__}', case, repr(e), None, tags=['factorize-grammar', 'label-clash', 'raises', method])
+                    continue
+                if z1.shape != z2.shape or not bool((z1 == z2).all()):
+                    ctx.fail(f'factorize_fgg changed the sum_product: {z1.tolist()} -> {z2.tolist()}', case, z2.tolist(), z1.tolist(),
+                             tags=['factorize-grammar', 'label-clash', 'value', method])
 
 
 def run_grammars(ctx):
